@@ -73,6 +73,13 @@ func typesUnderTest() []registry.Entry {
 	return out
 }
 
+// padded puts a value behind 1..7 leading bits and in front of a trailing field.
+type padded[T any] struct {
+	Pad  T
+	A    tlb.MsgAddress
+	Tail tlb.Uint5
+}
+
 func harnesses(r *fw.Run) []fw.HarnessSpec {
 	seed := int(r.Seed)
 	var hs []fw.HarnessSpec
@@ -416,6 +423,67 @@ func harnesses(r *fw.Run) []fw.HarnessSpec {
 		c.Outcome(tlbx.RoundTrip(c, "tlb.VmStack", reflect.ValueOf(&st).Elem(), true))
 		for i := range st {
 			tlbx.RoundTrip(c, "tlb.VmStackValue", reflect.ValueOf(&st[i]).Elem(), true)
+		}
+	})
+
+	// the variable-length bit strings inside addresses (addr_extern, addr_var) at every length 0..511 and at every bit
+	// offset 0..7 of the enclosing cell, with bit patterns that end in ones / zeros / alternate
+	add("address-bit-strings-every-length-and-offset", 0, func(c *enum.Ctx) {
+		kind := c.ChooseFree(2)
+		n := c.ChooseFree(512)
+		off := c.ChooseFree(8)
+		pat := c.ChooseFree(3)
+		c.Case([]byte(fmt.Sprintf("addrbits/%d/%d/%d/%d", kind, n, off, pat)), true)
+		c.Sample(map[string]any{"kind": []string{"addr_extern", "addr_var"}[kind], "len": n, "bit_offset": off, "pattern": pat})
+		c.Label("address kind %d of %d bits at bit offset %d pattern %d", kind, n, off, pat)
+		bs := tb.NewBitString(n)
+		for i := 0; i < n; i++ {
+			switch pat {
+			case 0:
+				bs.WriteBit(true)
+			case 1:
+				bs.WriteBit(i%2 == 0)
+			default:
+				bs.WriteBit(i >= n-3 || i%5 == 1)
+			}
+		}
+		var a tlb.MsgAddress
+		if kind == 0 {
+			a.SumType = "AddrExtern"
+			a.AddrExtern = &bs
+		} else {
+			a.SumType = "AddrVar"
+			a.AddrVar = &struct {
+				Anycast     tlb.Maybe[tlb.Anycast]
+				AddrLen     tlb.Uint9
+				WorkchainId int32
+				Address     tb.BitString
+			}{AddrLen: tlb.Uint9(n), WorkchainId: -5, Address: bs}
+		}
+		switch off {
+		case 0:
+			c.Outcome(tlbx.RoundTrip(c, "tlb.MsgAddress", reflect.ValueOf(&a).Elem(), true))
+		case 1:
+			w := padded[tlb.Uint1]{1, a, 21}
+			c.Outcome(tlbx.RoundTrip(c, "struct{Uint1;MsgAddress;Uint5}", reflect.ValueOf(&w).Elem(), true))
+		case 2:
+			w := padded[tlb.Uint2]{2, a, 21}
+			c.Outcome(tlbx.RoundTrip(c, "struct{Uint2;MsgAddress;Uint5}", reflect.ValueOf(&w).Elem(), true))
+		case 3:
+			w := padded[tlb.Uint3]{5, a, 21}
+			c.Outcome(tlbx.RoundTrip(c, "struct{Uint3;MsgAddress;Uint5}", reflect.ValueOf(&w).Elem(), true))
+		case 4:
+			w := padded[tlb.Uint4]{9, a, 21}
+			c.Outcome(tlbx.RoundTrip(c, "struct{Uint4;MsgAddress;Uint5}", reflect.ValueOf(&w).Elem(), true))
+		case 5:
+			w := padded[tlb.Uint5]{17, a, 21}
+			c.Outcome(tlbx.RoundTrip(c, "struct{Uint5;MsgAddress;Uint5}", reflect.ValueOf(&w).Elem(), true))
+		case 6:
+			w := padded[tlb.Uint6]{33, a, 21}
+			c.Outcome(tlbx.RoundTrip(c, "struct{Uint6;MsgAddress;Uint5}", reflect.ValueOf(&w).Elem(), true))
+		case 7:
+			w := padded[tlb.Uint7]{65, a, 21}
+			c.Outcome(tlbx.RoundTrip(c, "struct{Uint7;MsgAddress;Uint5}", reflect.ValueOf(&w).Elem(), true))
 		}
 	})
 
